@@ -1180,6 +1180,8 @@ class Interp:
                     return v
                 if isinstance(v, str) and ty in ("alloc::string::String", "alloc::borrow::Cow<'_, str>", "&str"):
                     return v
+                if rty in ("alloc::string::String", "str") and re.match(r"^(alloc::borrow::Cow<'[^,>]*, str>|alloc::boxed::Box<str>|alloc::rc::Rc<str>|alloc::sync::Arc<str>|alloc::string::String)$", ty or ""):
+                    return v        # one text container into another: the text is the same
                 if self.opaque_conversions and (isinstance(v, Opaque) or callable(self.opaque_conversions)):
                     # no conversion of the crate applies: the conversion is abstracted to the identity (when the caller allows it)
                     if callable(self.opaque_conversions) and not self.opaque_conversions(self.f.ty(e.get("recv_ty")) or "", ty or ""):
